@@ -32,6 +32,9 @@ fn filler(mode: Mode, len: usize, variant: usize) -> Vec<u8> {
 
 #[derive(Clone, Debug)]
 pub struct Case {
+    /// class of the payload characters; None = the natural class of `mode`. With a forced mode any class whose
+    /// alphabet is contained in the mode's alphabet is legal (digits forced to Byte, ...).
+    pub payload_class: Option<Mode>,
     pub mode: Mode,
     pub level: Level,
     pub len: usize,
@@ -42,12 +45,18 @@ pub struct Case {
 }
 
 fn to_json(c: &Case) -> Value {
-    json!({"mode": c.mode.name(), "level": c.level.name(), "len": c.len, "forced_version": c.forced, "force_mode": c.force_mode,
+    json!({"payload_class": c.payload_class.map(|m| m.name()), "mode": c.mode.name(), "level": c.level.name(), "len": c.len, "forced_version": c.forced, "force_mode": c.force_mode,
            "force_level": c.force_level, "variant": c.variant})
 }
 
 fn from_json(v: &Value) -> Option<Case> {
     Some(Case {
+        payload_class: match v.get("payload_class").and_then(|x| x.as_str()) {
+            Some("Numeric") => Some(Mode::Numeric),
+            Some("Alphanumeric") => Some(Mode::Alphanumeric),
+            Some("Byte") => Some(Mode::Byte),
+            _ => None,
+        },
         mode: match v["mode"].as_str()? {
             "Numeric" => Mode::Numeric,
             "Alphanumeric" => Mode::Alphanumeric,
@@ -69,10 +78,15 @@ fn from_json(v: &Value) -> Option<Case> {
 
 pub fn check(c: &Case, obs: &mut Obs) -> Result<(), Fail> {
     // with automatic mode the empty input is Numeric whatever the class
-    let force_mode = c.force_mode || (c.len == 0 && c.mode != Mode::Numeric);
+    // a narrower payload class is only legal (and only changes nothing about the mode in effect) when the mode is forced
+    let class = match c.payload_class {
+        Some(pc) if (pc as usize) < (c.mode as usize) => pc,
+        _ => c.mode,
+    };
+    let force_mode = c.force_mode || class != c.mode || (c.len == 0 && c.mode != Mode::Numeric);
     let force_level = c.force_level || c.level != Level::Q;
     let bc = BuildCase::new(
-        filler(c.mode, c.len, c.variant),
+        filler(class, c.len, c.variant),
         Opts {
             mode: if force_mode { Some(c.mode) } else { None },
             level: if force_level { Some(c.level) } else { None },
@@ -113,6 +127,9 @@ pub fn check(c: &Case, obs: &mut Obs) -> Result<(), Fail> {
                 );
             }
             obs.label(if c.forced.is_some() { "ok_forced" } else { "ok_auto" });
+            if class != c.mode {
+                obs.label("payload_narrower_than_forced_mode");
+            }
             // at the capacity of the version used the data must not overflow their codewords: round trip
             if c.len == capacity(*v, c.level, c.mode) || c.len + 1 == capacity(*v, c.level, c.mode) {
                 let vals = b.values();
@@ -175,7 +192,8 @@ pub fn replay(_e: &Engine, case: &Value, obs: &mut Obs) -> Result<(), Fail> {
 pub fn run(e: &'static Engine) {
     e.set_rule(
         "Enumerated: every length 0..=7200 x 3 modes x 4 levels with automatic version (mode/level forced or automatic \
-         alternating; payload of the mode's class) -> result must be Ok(min version by the capacity formula) or Err(data too big) \
+         alternating; payload of the mode's class, and with a forced mode also of every narrower class: digits forced to \
+         Alphanumeric or Byte, alphanumeric text forced to Byte) -> result must be Ok(min version by the capacity formula) or Err(data too big) \
          exactly when nothing fits; for every (mode, level, version) the lengths cap-1, cap, cap+1 x forced version in \
          {v-1, v, v+1, 1, 40} (thorough: all 40 forced versions); lengths far beyond capacity (7090..2^20) auto and forced V40. \
          Generated (thorough): random (mode, level, length, forced version). Oracle: capacity formula 4 + cci + payload bits <= \
@@ -194,7 +212,7 @@ pub fn run(e: &'static Engine) {
                 for (mi, &mode) in MODES.iter().enumerate() {
                     for (li, &level) in LEVELS.iter().enumerate() {
                         let k = len + mi + li;
-                        let c = Case { mode, level, len, forced: None, force_mode: k % 2 == 0, force_level: k % 3 != 0, variant: k % 5 };
+                        let c = Case { payload_class: if k % 4 == 1 { Some(Mode::from_index((len + li) % 3)) } else { None }, mode, level, len, forced: None, force_mode: k % 2 == 0, force_level: k % 3 != 0, variant: k % 5 };
                         jc.run_case(&c, to_json, |c, o| {
                             o.label("part:all_lengths_auto");
                             check(c, o)
@@ -224,7 +242,7 @@ pub fn run(e: &'static Engine) {
                             f
                         };
                         for f in forced {
-                            let c = Case { mode, level, len, forced: Some(f), force_mode: (len + f) % 2 == 0, force_level: true, variant: f % 5 };
+                            let c = Case { payload_class: if (len + f) % 3 == 0 { Some(Mode::from_index(f % 3)) } else { None }, mode, level, len, forced: Some(f), force_mode: (len + f) % 2 == 0, force_level: true, variant: f % 5 };
                             jc.run_case(&c, to_json, |c, o| {
                                 o.label("part:thresholds_forced");
                                 check(c, o)
@@ -241,7 +259,7 @@ pub fn run(e: &'static Engine) {
             for &mode in MODES.iter() {
                 for &level in LEVELS.iter() {
                     for forced in [None, Some(40), Some(1)] {
-                        let c = Case { mode, level, len, forced, force_mode: len % 2 == 0, force_level: true, variant: 0 };
+                        let c = Case { payload_class: Some(Mode::Numeric), mode, level, len, forced, force_mode: len % 2 == 0, force_level: true, variant: 0 };
                         jc.run_case(&c, to_json, |c, o| {
                             o.label("part:far_beyond");
                             check(c, o)
@@ -258,8 +276,8 @@ pub fn run(e: &'static Engine) {
     let mut jobs: Vec<Job> = Vec::new();
     for _ in 0..shards {
         jobs.push(Box::new(move |jc: &mut JobCtx| {
-            let strat = (0usize..3, 0usize..4, any::<u16>(), prop_oneof![Just(None), (1usize..=40).prop_map(Some)], any::<u16>(), 0usize..5, any::<bool>(), any::<bool>())
-                .prop_map(|(mi, li, vsel, forced, off, variant, fm, fl)| {
+            let strat = (0usize..3, 0usize..4, any::<u16>(), prop_oneof![Just(None), (1usize..=40).prop_map(Some)], any::<u16>(), 0usize..5, any::<bool>(), any::<bool>(), prop_oneof![Just(None), (0usize..3).prop_map(|i| Some(Mode::from_index(i)))])
+                .prop_map(|(mi, li, vsel, forced, off, variant, fm, fl, pclass)| {
                     let mode = Mode::from_index(mi);
                     let level = Level::from_index(li);
                     // length near the capacity of a random version, or anywhere
@@ -275,7 +293,7 @@ pub fn run(e: &'static Engine) {
                         6 => cap.saturating_sub(2),
                         _ => pick(off, 9000),
                     };
-                    Case { mode, level, len, forced, force_mode: fm, force_level: fl, variant }
+                    Case { payload_class: pclass, mode, level, len, forced, force_mode: fm, force_level: fl, variant }
                 });
             jc.run_prop(1 << 20, &strat, total / shards, to_json, |c, o| {
                 o.label("part:generated");
